@@ -241,7 +241,23 @@ impl<'a> Gen<'a> {
                         Inl::Emph(self.plain_words(1, 2))
                     }
                 }
-                9 => Inl::Strong(self.plain_words(1, 2)),
+                9 => {
+                    if rich && self.rng.chance(1, 3) {
+                        match self.link(in_table) {
+                            Some(l) => {
+                                if self.rng.chance(1, 2) {
+                                    Inl::Strong(vec![l])
+                                } else {
+                                    let a = self.word();
+                                    Inl::Strong(vec![a, Inl::Emph(vec![l])])
+                                }
+                            }
+                            None => Inl::Strong(self.plain_words(1, 2)),
+                        }
+                    } else {
+                        Inl::Strong(self.plain_words(1, 2))
+                    }
+                }
                 10 => Inl::Emph(self.plain_words(1, 3)),
                 11 => {
                     let a = self.word();
